@@ -806,6 +806,7 @@ def _uf1(name, note, extra=None):
 _ANALYTIC_NOTE = "analytic function symbol: meaning given by the translation table of pyvc/analytic.py (sympy)"
 for _dotted, _nm, _extra in (
     ("scipy.special.erfc", "sp_erfc", lambda r, a: z3.And(r > 0, r < 2)),
+    ("scipy.special.erf", "sp_erf", lambda r, a: z3.And(r > -1, r < 1)),
     ("scipy.stats.norm.cdf", "norm_cdf", lambda r, a: z3.And(r > 0, r < 1)),
     ("scipy.stats.norm.pdf", "norm_pdf", lambda r, a: r > 0),
     ("numpy.expm1", "np_expm1", lambda r, a: r > -1),
